@@ -336,12 +336,24 @@ def _holes(run, P):
     p0 = f.params()[0]
     c = f"{f.key}:test"
     found = None
+    any_fill_test = False
+    from ..astutil import Resolver
+    RZ = Resolver(f.node)
     for n in ast.walk(f.node):
-        ft = S.fill_test(n) if isinstance(n, ast.Compare) else None
+        if not isinstance(n, ast.Compare):
+            continue
+        # locals standing for a column of the table are looked through:  second = efc[:, 1]; second == INT_FILL_VALUE
+        rn = RZ.resolve(n)
+        ft = S.fill_test(rn)
+        if ft:
+            any_fill_test = True
         if ft and isinstance(ft[1], ast.Subscript) and norm(ft[1].value) == p0:
             found = (ft, n)
     if found is None:
-        run.violation("IDX/hole-edges", c, where(f), "no comparison of edge_face_connectivity with INT_FILL_VALUE")
+        if any_fill_test:
+            run.incomplete("IDX/hole-edges", c, where(f), "a comparison with INT_FILL_VALUE exists but its operand is not recognised as a column of edge_face_connectivity")
+        else:
+            run.violation("IDX/hole-edges", c, where(f), "no comparison of edge_face_connectivity with INT_FILL_VALUE")
         return
     ft, n = found
     ax = S.subscript_axes(ft[1])
